@@ -652,7 +652,7 @@ theorem updExtend_backed {N : Nat} {s s' : State} {k size : Nat} {ds : List Int}
   · cases h
 
 theorem close_backed {N : Nat} {s s' : State} {fin : Bool} {k : Nat} {c : Caller} {X : Nat} {per : List (Nat × Nat)}
-    (h : close s fin k c X per = .ok s') (g : Good N s) : Backed N s s' ∧ Good N s' := by
+    {rates : List (Nat × Nat × Nat)} (h : close s fin k c X per rates = .ok s') (g : Good N s) : Backed N s s' ∧ Good N s' := by
   obtain ⟨hb, hw⟩ := g
   unfold close at h
   split at h
